@@ -522,6 +522,16 @@ def run (op : String) (input implOut : Json) : Option (Json × Bool) :=
       | _, _ => false) input implOut
   | "bringup" => bringup input implOut
   | "pinrun" => pinrun input implOut
+  | "genpin" => do
+    -- `BasePin.generate_pin` under a scripted random source: the first draw that satisfies the policy
+    let draws ← (← (← input.get? "draws").asArr?).mapM Json.asBytes?
+    let model := match Spec.C10.generatePin draws with
+      | some p => Json.obj [("pin", Json.ofBytes p)]
+      | none => Json.obj [("pin", .null)]
+    let ok := match (implOut.get? "pin").bind Json.asBytes? with
+      | some p => Spec.C10.isValidPin p
+      | none => false
+    pure (model, ok)
   | "certvalidate" => certvalidate input implOut
   | "certload" => certload input implOut
   | "verify" => verify input implOut
